@@ -80,6 +80,18 @@ fn nt_c20(r: &RunOut) -> bool {
         || r.stats.sim_ms >= 6000
 }
 
+fn nt_c02(r: &RunOut) -> bool {
+    r.stats.faults.get("mutation").copied().unwrap_or(0) > 0
+}
+
+fn nt_c10(r: &RunOut) -> bool {
+    if r.plan.family == "C10" {
+        return r.hist.iter().any(|e| matches!(&e.ev, crate::world::Ev::Note { what } if what.contains("len=") && !what.contains("len=0 ")));
+    }
+    let ix = Ix::new(r);
+    ix.gates.iter().any(|g| g.pieces.len() > 1) || ix.fault("frag") > 0
+}
+
 fn nt_c14(r: &RunOut) -> bool {
     crate::oracle::probe_c14(&Ix::new(r))
 }
@@ -87,6 +99,30 @@ fn nt_c14(r: &RunOut) -> bool {
 pub fn spec(id: &str) -> Option<PropSpec> {
     let base: Vec<&'static str> = BASE_ASSUMPTIONS.to_vec();
     Some(match id {
+        "C02" => PropSpec {
+            id: "C02",
+            level: "exploration",
+            families: vec![(Family::C02, 100)],
+            quick_runs: 60_000,
+            thorough_runs: 6_000_000,
+            rule: "codec-level simulation: the real v3 / v5 codecs behind a simulated transport that decides how the byte stream is cut into reads. One run = a stream of 1..4 frames produced by the independent encoder (refcodec) from random valid packets (all packet types, v5 properties, payloads 0..20000 bytes), in 5 of 6 runs with one structure-aware mutation (remaining length inflated/deflated, truncation at any offset, bit flip, byte replaced, inner two-byte length +-k, QoS 3, zero packet id, invalid UTF-8 byte, unknown property, repeated once-only property, unknown reason code, splice, fixed-header flag flip), in 1 of 8 runs 0..6 random bytes; a PINGREQ sentinel follows; inbound maximum 0/64/300, min chunk 0/1/4/1024/32768; the stream is decoded in one read and under 2..4 fragmentations (one read, byte at a time, dense cuts at the start, random cut sets). Oracle: no panic or arithmetic overflow (overflow checks on); same packets, same complete payloads and the same error-or-not for every fragmentation; bytes consumed when a complete packet is returned end exactly at its frame; a frame the strict independent decoder puts into a must-reject class (length/count contradiction incl. trailing bytes, unknown or repeated property, unknown reason code, zero packet id, QoS 3, ill-formed UTF-8) is never accepted; an over-long frame is refused when only its fixed header has arrived; every accepted packet re-encodes and decodes to itself. The version-sniffing codec is private to the crate and is exercised at connection level by C19 only; distinct = (version, configuration, item kinds, error kind, stream length); non-trivial = a mutation was applied",
+            nontrivial: nt_c02,
+            assumptions: vec![
+                "the independent codec (refcodec) classifies frames correctly; U+0000 inside a string is not counted as ill-formed UTF-8",
+                "sampled, not exhaustive: byte strings up to length 6 are drawn at random rather than enumerated",
+                "a clean batch is evidence for the sampled streams and fragmentations, not a proof",
+            ],
+        },
+        "C10" => PropSpec {
+            id: "C10",
+            level: "exploration",
+            families: vec![(Family::C10, 50), (Family::C10C, 50)],
+            quick_runs: 30_000,
+            thorough_runs: 3_000_000,
+            rule: "two levels. Codec level: a stream of 1..4 valid packets (payloads 0..20000 bytes) decoded in one read and under 2..4 fragmentations for min chunk 0/1/4/1024/32768: same packets and payload bytes, each PUBLISH announced once with its declared size, pieces add up to it, exactly one final piece, no non-final non-empty piece below the minimum, nothing leaks into the next packet, valid streams decode completely. Connection level (real dispatcher, gated handlers): 1..4 publishes with payload sizes around chunk and varint boundaries (0..300 KiB) delivered in one piece, byte at a time, around packet boundaries or in random cuts, max payload buffer 64 B..128 KiB, read buffer 1..64 KiB, readers eager / lazy (paced by the simulator) / abandoning: the handler receives exactly the bytes sent, in order; distinct = abstract history signature; non-trivial = a payload was delivered to the decoder or the handler in more than one piece",
+            nontrivial: nt_c10,
+            assumptions: base,
+        },
         "C03" => PropSpec {
             id: "C03",
             level: "exploration",
@@ -140,7 +176,7 @@ pub fn spec(id: &str) -> Option<PropSpec> {
         "C08" => PropSpec {
             id: "C08",
             level: "exploration",
-            families: vec![(Family::C08, 60), (Family::C05, 20), (Family::C03, 20)],
+            families: vec![(Family::C08, 55), (Family::C05, 15), (Family::C03, 15), (Family::C07, 15)],
             quick_runs: 24_000,
             thorough_runs: 2_000_000,
             rule: "one run = interleaved sink operations (QoS0/1/2, streamed sends with under/over-delivery and dropped handles, sends that fail in the encoder: over-long topic or filter, id in use, send during streaming) concurrent with inbound traffic answered by the dispatcher and write stalls; every byte the endpoint writes is parsed by the independent refcodec: complete well-formed packets only, failed sends leave nothing, payload bytes are position-coded; distinct = distinct abstract history signature; non-trivial = a streamed send or a locally failing send took part",
@@ -233,4 +269,4 @@ pub fn spec(id: &str) -> Option<PropSpec> {
     })
 }
 
-pub const ALL: [&str; 14] = ["C03", "C04", "C05", "C06", "C07", "C08", "C11", "C12", "C13", "C14", "C15", "C16", "C17", "C20"];
+pub const ALL: [&str; 16] = ["C02", "C10", "C03", "C04", "C05", "C06", "C07", "C08", "C11", "C12", "C13", "C14", "C15", "C16", "C17", "C20"];
